@@ -361,10 +361,12 @@ impl ParallelExecutor {
             result.read_set.clear();
             result.write_set.clear();
             result.dependencies.clear();
+            result.status = ExecutionStatus::Success;
+            result.error = None;
 
-            // Re-execute
+            // Re-execute; a failure reported by this run is the outcome
             execute_fn(idx, &batch.operations[idx], &mut result);
-            result.mark_reexecuted();
+            result.reexecution_count += 1;
             total_reexecutions.fetch_add(1, Ordering::Relaxed);
 
             let read_entities: Vec<EntityId> =
@@ -374,7 +376,6 @@ impl ParallelExecutor {
                     result.dependencies.push(writer);
                 }
             }
-            result.status = ExecutionStatus::Success;
         }
 
         // Phase 4: Collect results
